@@ -201,6 +201,6 @@ func (u Union) Generate(w io.Writer, settings GenerateSettings) {
 	u.generateEncodeBebop(ew, settings, fields)
 	u.generateDecodeBebop(ew, settings, fields)
 	u.generateSize(ew, settings, fields)
-	isEmpty := len(u.Fields) == 0
-	writeWrappers(ew, u.Name, isEmpty, settings)
+	// a union is never empty on the wire: it always has a length prefix
+	writeWrappers(ew, u.Name, false, settings)
 }
